@@ -165,7 +165,7 @@ pub fn to_int_fast(a: u64, l: &mut Local) -> Result<(), Viol> {
 
 pub fn run(rep: &mut Report) {
     let tier = rep.cfg.tier;
-    rep.rule = "integer -> posit: from_i8..from_usize of the integer against the posit rounding of its exact value (i8/u8/i16/u16: all values; i32/u32: generated + strided, thorough all 2^32; i64/u64/isize/usize: proptest int64 generator = specials, crate thresholds, powers of two +-2, short mantissa * 2^s with optional sticky bits). posit -> integer: to_i32/to_u32/to_i64/to_u64 of every real pattern against round-half-even clamped to the target range (P8, P16 all patterns; P32 generated + strided, thorough all). Non-trivial = integer not representable in the target posit / posit value non-integer or outside i32; distinct (op, input)."
+    rep.rule = "integer -> posit: from_i8..from_usize of the integer against the posit rounding of its exact value (i8/u8/i16/u16: all values; i32/u32: all 2^32 values in both tiers; i64/u64/isize/usize: proptest int64 generator = specials, crate thresholds, powers of two +-2, short mantissa * 2^s with optional sticky bits). posit -> integer: to_i32/to_u32/to_i64/to_u64 of every real pattern against round-half-even clamped to the target range (P8, P16 and P32: all patterns in both tiers). Non-trivial = integer not representable in the target posit / posit value non-integer or outside i32; distinct (op, input)."
         .into();
     rep.assumptions = std_assumptions();
     super::run_corpus(rep, replay);
@@ -210,8 +210,7 @@ pub fn run(rep: &mut Report) {
     });
     match tier {
         Tier::Quick => {
-            let off = rep.cfg.seed % 2;
-            rep.lattice("every 2nd 32-bit integer (offset = seed mod 2): from_i32, from_u32 -> three types (fast oracle)", 1 << 31, move |i, l| from_32_fast(i * 2 + off, l));
+            rep.exhaustive("all 2^32 32-bit integers: from_i32, from_u32 -> three types (fast oracle)", 1 << 32, |i, l| from_32_fast(i, l));
             rep.exhaustive("P32E2 all 2^32 patterns: to_i32/u32/i64/u64 (fast oracle)", 1 << 32, |i, l| to_int_fast(i, l));
         }
         Tier::Thorough => {
